@@ -68,3 +68,10 @@ for _r, _c, _k, _tier in [(2, 3, 2, 'quick'), (3, 2, 5, 'quick'), (2, 3, 1, 'qui
                  'mapping_matrix_multiply_channel_in_float', 'mapping_matrix_multiply_channel_in_short', 'mapping_matrix_multiply_channel_in_int24', 'mapping_matrix_get_data'],
       bounds='%d x %d matrix (rows x columns, all in use), kernel %d of 6 (0-2 output float/16/24 bit, 3-5 input), 2 samples per channel, exact-size buffers, samples within +-4.0 / 24 bits' % (_r, _c, _k),
       what='projection matrix kernels write only the caller\'s frame_size x channels samples and read only their inputs, for non-square shapes too; 24-bit output accumulates round(coefficient x sample / 2^15)'))
+
+import copy as _copy2
+for _g in list(GROUPS):
+    if _g['name'] == 'proj_matrix_kernels_2x3_k2':
+        _h = _copy2.deepcopy(_g); _h.pop('prop', None); _h['name'] = 'proj_matrix_kernels_2x3_k2_functional'; _h['tier'] = 'thorough'; _h['defines'] = _h['defines'] + ['-DVERIF_PM_FUNCTIONAL']; _h['timeout'] = 2400
+        _h['what'] = _h['what'] + ' (with the functional clause of the 24-bit output kernel)'
+        GROUPS.append(_h)
